@@ -267,6 +267,43 @@ func c06Conservation(s *scn.Scn, r *scn.Run, m *scn.MResult, modes []bool) (sig,
 	return "", ""
 }
 
+// c06SwitchOff: an execution in which every Aspect answers "ok, nothing burnt" must hand out and hand back exactly
+// the gas of the same execution with the join-point switch off (the mode in which calls issued by Aspects run): the
+// step-by-step gas of every instruction and the top-level leftover are equal.
+func c06SwitchOff(s *scn.Scn, r *scn.Run) (sig, detail string) {
+	if len(r.Invs) != 1 || r.Invs[0].Panic != "" {
+		return "", ""
+	}
+	for _, a := range r.Answers {
+		if a.Kind != 0 || a.Burn != 0 {
+			return "", ""
+		}
+	}
+	off, _ := replayScnSeq(s, nil, []bool{false}, false)
+	if len(off.Invs) != 1 || off.Invs[0].Panic != "" {
+		return "", ""
+	}
+	steps := func(ev []string) []string {
+		var out []string
+		for _, l := range ev {
+			if strings.HasPrefix(l, "S ") || strings.HasPrefix(l, "> ") || strings.HasPrefix(l, "< ") || strings.HasPrefix(l, "B ") || strings.HasPrefix(l, "E ") {
+				out = append(out, l)
+			}
+		}
+		return out
+	}
+	on, of := steps(r.Events()), steps(off.Events())
+	for i := 0; i < len(on) && i < len(of); i++ {
+		if on[i] != of[i] {
+			return "switch_off:gas", fmt.Sprintf("event %d differs between join points on (Aspects burning nothing) and off\non:  %s\noff: %s", i, on[i], of[i])
+		}
+	}
+	if len(on) != len(of) || off.Invs[0].Gas != r.Invs[0].Gas {
+		return "switch_off:gas", fmt.Sprintf("join points on (nothing burnt): %d events, leftover %d; switch off: %d events, leftover %d", len(on), r.Invs[0].Gas, len(of), off.Invs[0].Gas)
+	}
+	return "", ""
+}
+
 func init() {
 	c06 := &scnCheck{ID: "C06", Nontrivial: func(s *scn.Scn, r *scn.Run, m *scn.MResult) bool {
 		for _, a := range r.Answers {
@@ -280,7 +317,10 @@ func init() {
 			if sig, d := c06Judge(s, r, m); sig != "" {
 				return sig, d
 			}
-			return c06Conservation(s, r, m, nil)
+			if sig, d := c06Conservation(s, r, m, nil); sig != "" {
+				return sig, d
+			}
+			return c06SwitchOff(s, r)
 		},
 		Opts: func(tier string) (*scnOpts, int, [][]bool) {
 			o := &scnOpts{Forks: []world.Fork{world.Shanghai}, Answers: answerAlphabet, NAspects: []int{1, 2}, BoundAll: true, TopValues: []int{0, 1}}
@@ -303,7 +343,7 @@ func init() {
 		}}
 	register(&Check{ID: "C06", Level: "fault_enumeration",
 		Technique: "bounded exhaustive enumeration of scenario call trees x 1-2 Aspects per join point x answer vectors (burn 0/1/100/all gas, out of gas, revert, other failure, provider failure; deviation-bounded) executed on the real EVM with a scripted Aspect runtime; gas seen by the callee's first instruction, gas handed back to each caller (from the caller's own step gas around the call) and recorded leftovers are checked against what the join points left, plus a differential conservation check against the burn-free execution",
-		Rule:      "scenario trees (depth 2 full, depth 3 chains) with Aspects bound to every contract x answers with <= k deviations. Oracle per call: callee's first-step gas == gas left by the last pre Aspect; gas returned to the caller == gas left by the last post Aspect when the frame succeeded or reverted, 0 when it halted; out-of-gas at either join point => the identical vm.ErrOutOfGas value and 0 returned; any other non-revert post failure => 0 returned; no node and no caller ever sees more gas handed back than supplied; Aspect exit events report exactly the gas each Aspect left; with finite burns and no halting frame, top-level leftover == burn-free leftover - sum of burns. non-trivial = distinct executions with at least one non-default answer",
+		Rule:      "scenario trees (depth 2 full, depth 3 chains) with Aspects bound to every contract x answers with <= k deviations. Oracle per call: callee's first-step gas == gas left by the last pre Aspect; gas returned to the caller == gas left by the last post Aspect when the frame succeeded or reverted, 0 when it halted; out-of-gas at either join point => the identical vm.ErrOutOfGas value and 0 returned; any other non-revert post failure => 0 returned; no node and no caller ever sees more gas handed back than supplied; Aspect exit events report exactly the gas each Aspect left; with finite burns and no halting frame, top-level leftover == burn-free leftover - sum of burns; with nothing burnt and nothing failing, every instruction's gas and the leftover equal those of the same execution with the join-point switch off. non-trivial = distinct executions with at least one non-default answer",
 		Assumptions: []string{"the scripted runtime never answers with more gas than it was given (the real runtime's contract)", "leftover after a non-out-of-gas pre failure and after an Aspect revert is not judged beyond 'not more than supplied'"},
 		Bounds:      func(t string) map[string]any { _, b, _ := c06.Opts(t); return map[string]any{"answer_deviation_bound": b, "answers": len(answerAlphabet)} },
 		Quick:       80 * time.Second, Thorough: 40 * time.Minute, Replay: c06.replay,
